@@ -3,6 +3,8 @@ formulas of several BIOGEME objects and by separate evaluations.  A script of st
     ['new', m]        objects[m] = BIOGEME(database, {'f': formula m})            m in E, P, Q
     ['sim', m, k]     objects[m].simulate(value set k)            -> one value per row
     ['gvc', m, k]     formula m .get_value_c(database, betas = value set k, prepare_ids=True); k = null: no dictionary (initial values)
+    ['prep', m]       formula m .prepare(database, 0): identifiers stored in the formula
+    ['gvp', m, k]     formula m .get_value_c(database, betas = value set k, prepare_ids=False)   (after 'prep')
     ['fn', m, k]      function created ONCE by formula m .create_function(database) called at value set k (sum over rows)
     ['ll', m, k]      objects[m].calculate_likelihood(x_k, scaled=False) when m was built with log_like = formula m
 Every value is returned; the harness compares it with the enclosure of the formula at that value set."""
@@ -39,6 +41,10 @@ for c in payload['cases']:
         for step in c['script']:
             op, m = step[0], step[1]
             try:
+                if op == 'prep':
+                    F[m].prepare(db, 0)
+                    res['steps'].append('ok')
+                    continue
                 if op == 'new':
                     objects[m] = BIOGEME(db, {'f': F[m], 'log_like': F[m]})
                     objects[m].save_iterations = False
@@ -52,6 +58,9 @@ for c in payload['cases']:
                     names = objects[m].id_manager.free_betas.names
                     df = objects[m].simulate({k: free[k] for k in names})
                     res['steps'].append([enc(x) for x in df['f']])
+                elif op == 'gvp':
+                    v = F[m].get_value_c(database=db, betas=free, prepare_ids=False)
+                    res['steps'].append([enc(x) for x in v])
                 elif op == 'gvc':
                     v = F[m].get_value_c(database=db, betas=free, prepare_ids=True)
                     res['steps'].append([enc(x) for x in v])
